@@ -68,10 +68,10 @@ theorem header_roundtrip : ∀ f0 f1 f2 : Bool,
   decide
 
 theorem glue_pinned :
-    Gen.pinReadPatchData = "813edb1be4eecf32" ∧ Gen.pinPatchWriter = "007b39bf95435be1" ∧
-    Gen.pinGroupby = "9026e39671bda162" ∧ Gen.pinSplitIntoPatches = "e4aff4bf6598f604" ∧
-    Gen.pinWriteUnthreaded = "158eb4c2c954440e" ∧ Gen.pinFinalize = "ccb9c8ee6d8b8d09" ∧
-    Gen.pinWritePatchesMP = "c2c79f2dddab0997" := by decide
+    Gen.pinReadPatchData = "d790de7baed0475a" ∧ Gen.pinPatchWriter = "d004ce4ac7f62d59" ∧
+    Gen.pinGroupby = "26ee2f474530068a" ∧ Gen.pinSplitIntoPatches = "d3f24646fbf4ed14" ∧
+    Gen.pinWriteUnthreaded = "beb11a718588c0ac" ∧ Gen.pinFinalize = "b10f4b135092e0fa" ∧
+    Gen.pinWritePatchesMP = "09bef58681471587" := by decide
 
 /-! non-vacuity -/
 example : arraySplit 3 [1, 2, 3, 4, 5, 6, 7] = [[1, 2, 3], [4, 5], [6, 7]] := by decide
